@@ -363,16 +363,18 @@ Theorem best_hits_sound : forall srcs out, sound srcs out ->
   forall i s, nth_error srcs i = Some s -> nth i (snd r) 0 = ufo_value s a b.
 Proof.
   intros srcs out S a b r Hr i s Hi. pose proof (nth_error_In _ _ Hi) as Hs. unfold best_hits in Hr.
+  rewrite (hits1_nil srcs out a b S) in Hr.
   destruct (hits 0 out a b) as [|r0 l0] eqn:H0.
-  - rewrite (hits1_nil srcs out a b S) in Hr.
-    destruct (c_gg _ _ S a b (hits_nil _ _ _ _ H0) s Hs) as [G1 G2].
+  - destruct (c_gg _ _ S a b (hits_nil _ _ _ _ H0) s Hs) as [G1 G2].
     destruct (hits 2 out a b) as [|r2 l2] eqn:H2.
     + pose proof (c_cg _ _ S a b (hits_nil _ _ _ _ H2) s Hs) as G3.
       apply hits_In in Hr as (Hin & K & M).
       rewrite (s_cc _ _ S r a b Hin K M i s Hi). symmetry. apply ufo_cc_form; assumption.
-    + rewrite <- H2 in Hr. apply hits_In in Hr as (Hin & K & M).
+    + assert (Hr' : In r (hits 2 out a b)) by (rewrite H2; exact Hr).
+      apply hits_In in Hr' as (Hin & K & M).
       rewrite (s_cg _ _ S r a b Hin K M i s Hi). symmetry. apply ufo_cg_form; assumption.
-  - rewrite <- H0 in Hr. apply hits_In in Hr as (Hin & K & M).
+  - assert (Hr' : In r (hits 0 out a b)) by (rewrite H0; exact Hr).
+    apply hits_In in Hr' as (Hin & K & M).
     exact (s_gg _ _ S r a b Hin K M i s Hi).
 Qed.
 
@@ -398,7 +400,8 @@ Proof.
   destruct (best_hits out a b) as [|r l] eqn:B.
   - rewrite nth_zeros. symmetry.
     exact (best_hits_complete srcs out S a b B s (nth_error_In _ _ Hi)).
-  - rewrite (best_hits_sound srcs out S a b r); [reflexivity | rewrite B; left; reflexivity | exact Hi].
+  - cbn [snd]. assert (Hr : In r (best_hits out a b)) by (rewrite B; left; reflexivity).
+    rewrite (best_hits_sound srcs out S a b r Hr i s Hi). reflexivity.
 Qed.
 
 (* colliding inserts carry equal values: two emitted rules whose sides hold the
@@ -420,3 +423,12 @@ Proof.
   exfalso. pose proof (s_no1 _ _ S r Hr) as K1.
   destruct r as [[e1 e2] v]. rewrite kind_shape in *. destruct e1, e2; congruence.
 Qed.
+
+(* every emitted rule carries one value per source *)
+Lemma build_rule_len : forall srcs r, In r (build srcs) -> length (snd r) = length srcs.
+Proof.
+  intros srcs r H.
+  destruct (build_origin srcs r H) as [a h m _ ->|a b ->|g b u1 H1 ->|g h u1 u2 H1 H2 ->];
+    cbn [snd]; apply map_length.
+Qed.
+
